@@ -480,6 +480,7 @@ func (x *Exec) evalUnary(s *State, n *ast.UnaryExpr) *Term {
 			v := x.evalComposite(s, cl, t)
 			ref := x.allocRef(s)
 			x.storeDeref(s, ref, t, v)
+			x.checkNewObjInv(s, ref, t, n.Pos())
 			return ref
 		}
 		// &x.f / &x / &s[i]: pointers into existing storage are modelled only for heap objects' whole-struct fields
